@@ -89,6 +89,17 @@ Definition x_hi (xm xl z : float) : float := xm + xl * z.            (* x[npts+1
 Definition w_of (xl z pp : float) : float :=                         (* w[i-1] = 2.0*xl/((1.-z*z)*pp*pp); *)
   2 * xl / ((1 - z * z) * pp * pp).
 Definition m_of (npts : Z) : Z := ((npts + 1) / 2)%Z.                (* m = (npts + 1)/2;                *)
+(* loop control, re-translated from the loop headers on every run:
+   for (i=1; i<= m; ++i)      -> first value I_FIRST, outer_trips passes
+   for (j=1; j <= npts;++j)   -> first value J_FIRST, inner_trips passes
+   do { .. } while (abszdiff > EPS);  -> continue_newton abszdiff *)
+Definition I_FIRST : float := 1.
+Definition J_FIRST : float := 1.
+Definition outer_trips (npts : Z) : Z := m_of npts.
+Definition inner_trips (npts : Z) : Z := npts.
+Definition REJECT_ERR : err := EValue.                                (* util.py: raise ValueError(...)   *)
+Definition STD_A : float := (-1)%float.                               (* QGauss.setup: gauleg(-1.0, 1.0, self.npts) *)
+Definition STD_B : float := 1.
 Definition reject_npts (npts : Z) : bool := (npts <=? 0)%Z.           (* util.py: if npts <= 0: raise ValueError *)
 (* the array positions written for root i (1-based): x[i-1], x[npts+1-i-1] *)
 Definition idx_lo (i : Z) : Z := (i - 1)%Z.
@@ -125,9 +136,11 @@ Fixpoint legendre (cnt : nat) (j z p1 p2 : float) : float * float :=
 
 (* lines 59-71, one pass of the loop body: returns (z, z1, pp) after the pass *)
 Definition newton_step (n : nat) (nf z : float) : float * float * float :=
-  let '(p1, p2) := legendre n 1 z P1_INIT P2_INIT in
+  let '(p1, p2) := legendre n J_FIRST z P1_INIT P2_INIT in
   let pp := pp_of nf z p1 p2 in
   (z_next z p1 pp, z, pp).
+
+Definition continue_newton (abszdiff : float) : bool := EPS <? abszdiff.   (* while (abszdiff > EPS) *)
 
 (* repaired code:  do { body } while (fabs(z-z1) > EPS);   explicit fuel *)
 Fixpoint newton_do (fuel n : nat) (nf z : float) : option (float * float * float) :=
@@ -135,12 +148,12 @@ Fixpoint newton_do (fuel n : nat) (nf z : float) : option (float * float * float
   | O => None
   | S f =>
     let '(z', z1', pp') := newton_step n nf z in
-    if EPS <? absdiff z' z1' then newton_do f n nf z' else Some (z', z1', pp')
+    if continue_newton (absdiff z' z1') then newton_do f n nf z' else Some (z', z1', pp')
   end.
 
 (* unchanged code:  abszdiff = fabs(z-z1); while (abszdiff > EPS) { body } *)
 Definition newton_while (fuel n : nat) (nf z z1 pp : float) : option (float * float * float) :=
-  if EPS <? absdiff z z1 then newton_do fuel n nf z else Some (z, z1, pp).
+  if continue_newton (absdiff z z1) then newton_do fuel n nf z else Some (z, z1, pp).
 
 Definition newton (orig : bool) (fuel n : nat) (nf z z1 pp : float) :=
   if orig then newton_while fuel n nf z z1 pp else newton_do fuel n nf z.
@@ -170,7 +183,7 @@ Fixpoint cos_args_from (cnt : nat) (i nf : float) : list float :=
   | S c => cos_arg i nf :: cos_args_from c (i + 1) nf
   end.
 Definition cos_args (npts : Z) : list float :=
-  cos_args_from (Z.to_nat (m_of npts)) 1 (of_Z npts).
+  cos_args_from (Z.to_nat (outer_trips npts)) I_FIRST (of_Z npts).
 
 Definition NEWTON_FUEL : nat := 100.
 
@@ -178,10 +191,10 @@ Definition NEWTON_FUEL : nat := 100.
    cgauleg_pywrap.c.  [coss] are the measured values of cos at [cos_args npts]. *)
 Definition gauleg_gen (orig : bool) (x1 x2 : float) (npts : Z) (coss : list float)
   : result (list float * list float) :=
-  if reject_npts npts then Err EValue
+  if reject_npts npts then Err REJECT_ERR
   else
-    let n := Z.to_nat npts in
-    let m := Z.to_nat (m_of npts) in
+    let n := Z.to_nat (inner_trips npts) in
+    let m := Z.to_nat (outer_trips npts) in
     if negb (Nat.eqb (length coss) m) then Err EOther
     else
       let nf := of_Z npts in
@@ -201,10 +214,10 @@ Definition gauleg_gen (orig : bool) (x1 x2 : float) (npts : Z) (coss : list floa
    FillProofs.gauleg_writes_eq:  gauleg_gen_w = gauleg_gen. *)
 Definition gauleg_gen_w (orig : bool) (x1 x2 : float) (npts : Z) (coss : list float)
   : result (list float * list float) :=
-  if reject_npts npts then Err EValue
+  if reject_npts npts then Err REJECT_ERR
   else
-    let n := Z.to_nat npts in
-    let m := Z.to_nat (m_of npts) in
+    let n := Z.to_nat (inner_trips npts) in
+    let m := Z.to_nat (outer_trips npts) in
     if negb (Nat.eqb (length coss) m) then Err EOther
     else
       let nf := of_Z npts in
@@ -265,11 +278,14 @@ Definition fnth (l : list float) (i : Z) : float := nth (Z.to_nat i) l nan.
 Definition searchsorted (x : list float) (u : float) : Z :=
   Z.of_nat (length (filter (fun xi => xi <? u) x)).
 
-Definition interp_index (x : list float) (u : float) : Z :=
-  let size := Z.of_nat (length x) in
-  let xm := (searchsorted x u - 1)%Z in
+(* interplin's index selection as a function of searchsorted's answer [ss] and the table size (re-translated from
+   stat/util.py on every run):  xm = ss - 1;  xm[xm >= size-1] = size-2;  xm[xm < 0] = 0 *)
+Definition interp_index_of (ss size : Z) : Z :=
+  let xm := (ss - 1)%Z in
   let xm := if (size - 1 <=? xm)%Z then (size - 2)%Z else xm in
   if (xm <? 0)%Z then 0%Z else xm.
+Definition interp_index (x : list float) (u : float) : Z :=
+  interp_index_of (searchsorted x u) (Z.of_nat (length x)).
 
 (* return (u - x[xm]) * (v[xmp1] - v[xm]) / (x[xmp1] - x[xm]) + v[xm]   (stat/util.py) *)
 Definition interp_formula (u x_m x_p v_m v_p : float) : float :=
@@ -403,6 +419,14 @@ Section Cache.
       | Some _, Some r => (st', I r a)
       | Some _, None => (st', Err EType)     (* self.xxi is None: None * f1 *)
       end
+    end.
+
+  (* the common prologue of integrate_func / integrate_data:  self.setup(npts=npts);
+     if self.npts is None: raise ValueError(...) *)
+  Definition q_prologue (st : qstate) (npts : option Z) : qstate * option err :=
+    match setup st npts with
+    | (st', Some e) => (st', Some e)
+    | (st', None) => match st_npts st' with None => (st', Some EValue) | Some _ => (st', None) end
     end.
 
   (* a whole history on one object; outputs in call order *)
